@@ -12,7 +12,7 @@ import json
 import os
 import random
 
-from .. import core
+from .. import core, gen
 
 LEVEL = "model_checking"
 
@@ -147,7 +147,14 @@ def _work_run(args):
     wd = os.path.join(core.VERIF, ".work", f"c08r-{os.getpid()}")
     os.makedirs(wd, exist_ok=True)
     pqr = os.path.join(wd, "o.pqr")
-    r = runner.run(opts + [os.path.join(core.REPO, "tests", "data", name), pqr])
+    src = os.path.join(core.REPO, "tests", "data", name)
+    if name == "GEN:ligand-complex":
+        # a generated complex (peptide + the MOL2 ligand as a hetero group, no water): ligand atoms are appended to the written
+        # list after the force-field atoms
+        mol2 = next(o.split("=", 1)[1] for o in opts if o.startswith("--ligand="))
+        src = os.path.join(wd, "complex.pdb")
+        open(src, "w").write(gen.pdb_text([gen.peptide(["ALA", "SER", "LYS"]), gen.ligand_hetatm(mol2, move_to=(-14, -12, 6))]))
+    r = runner.run(opts + [src, pqr])
     traces = []
     info = {"exc": r["exc_type"], "natoms": 0, "nlines": 0, "other": []}
     if r["ok"]:
@@ -155,6 +162,13 @@ def _work_run(args):
         atoms = [a for a in r["bio"].atoms if id(a) not in missed]
         lines = open(pqr).read().split("\n")
         alines = [ln for ln in lines if ln.startswith(("ATOM", "HETATM"))]
+        if name.startswith("GEN:"):
+            # lines are paired with the model's atoms by (atom name, residue name, residue number): the returned "unassigned"
+            # list of a --ligand run also holds matched ligand atoms (known finding of C03)
+            bykey = {(a.name, a.res_name, str(a.res_seq)): a for a in r["bio"].atoms}
+            atoms = [bykey.get((ln[12:16].strip(), ln[17:20].strip(), ln[22:26].strip())) for ln in alines]
+            alines = [ln for ln, a in zip(alines, atoms) if a is not None]
+            atoms = [a for a in atoms if a is not None]
         info["natoms"], info["nlines"] = len(atoms), len(alines)
         info["other"] = sorted(set(ln[:6].strip() for ln in lines if ln and not ln.startswith(("ATOM", "HETATM"))))
         ws = "--whitespace" in opts
@@ -232,7 +246,9 @@ def run(ctx):
     runs = [("cterm_hid.pdb", ["--ff=AMBER"]), ("cterm_hid.pdb", ["--ff=PARSE", "--whitespace", "--keep-chain"]),
             ("1AJJ.pdb", ["--ff=CHARMM", "--keep-chain", "--ffout=AMBER"]), ("1AJJ.pdb", ["--ff=AMBER", "--whitespace"]),
             ("cterm_hid.pdb", ["--clean", "--keep-chain"]), ("1AJJ.pdb", ["--clean", "--keep-chain", "--whitespace"]), ("1AJJ.pdb", ["--clean"]),
-            ("1A1P.pdb", ["--ff=AMBER", "--assign-only", "--keep-chain"])]
+            ("1A1P.pdb", ["--ff=AMBER", "--assign-only", "--keep-chain"]),
+            ("GEN:ligand-complex", ["--ff=AMBER", "--ligand=" + os.path.join(core.REPO, "tests", "data", "ethanol.mol2")]),
+            ("GEN:ligand-complex", ["--ff=PARSE", "--keep-chain", "--ligand=" + os.path.join(core.REPO, "tests", "data", "acetate.mol2")])]
     if not ctx.quick:
         runs += [("1K1I.pdb", ["--ff=AMBER", "--whitespace", "--keep-chain"]), ("1K1I.pdb", ["--ff=PARSE", "--keep-chain"]),
                  ("1BX8.pdb", ["--ff=SWANSON", "--whitespace", "--ffout=CHARMM"])]
